@@ -106,6 +106,38 @@ def run(payload):
                              got_at_one_point=ax.data[:, mask][:, 0].tolist())
             except Exception as e:
                 fail("to_cartesian_error", grid=repr(g), error=f"{type(e).__name__}: {e}")
+    # ---- coordinate systems: the position vector r*e_r (+ z*e_z) has the Cartesian components of the point itself, for one
+    #      point and for arrays of points (components are combined with the normalised Jacobian columns)
+    from pde.grids.coordinates import CylindricalCoordinates, PolarCoordinates, SphericalCoordinates
+    for c in (PolarCoordinates(), SphericalCoordinates(), CylindricalCoordinates()):
+        for shape in ((), (5,), (3, 4)):
+            cases += 1
+            pts = rng.uniform(0.3, 2.5, (*shape, c.dim))
+            comps = np.zeros((c.dim, *shape))
+            comps[0] = pts[..., 0]
+            if isinstance(c, CylindricalCoordinates):
+                comps[2] = pts[..., 2]
+            try:
+                got = c.vec_to_cart(pts, comps)
+                want = np.moveaxis(c.pos_to_cart(pts), -1, 0)
+                if got.shape != want.shape or not np.allclose(got, want, atol=1e-12):
+                    fail("position_vector_components_not_the_cartesian_point", coordinates=type(c).__name__, batch_shape=list(shape), max_dev=float(np.max(np.abs(got - want))) if got.shape == want.shape else "shape")
+            except Exception as e:
+                fail("vec_to_cart_error", coordinates=type(c).__name__, batch_shape=list(shape), error=f"{type(e).__name__}: {e}")
+    # ---- image data of a vector field on a polar grid: r*e_r is drawn as (x, y)
+    for r0 in (0.0, 0.5):
+        g = PolarSymGrid((r0, 3.0), 8)
+        cases += 1
+        try:
+            v = VectorField.from_expression(g, ["r", "0"])
+            img = v.get_vector_data()
+            xs, ys = np.meshgrid(img["x"], img["y"], indexing="ij")
+            rr = np.hypot(xs, ys)
+            mask = (rr > r0 + 0.4) & (rr < 2.6) & np.isfinite(img["data_x"]) & np.isfinite(img["data_y"])
+            if mask.any() and not (np.allclose(img["data_x"][mask], xs[mask], atol=0.05) and np.allclose(img["data_y"][mask], ys[mask], atol=0.05)):
+                fail("vector_image_of_a_radial_field_is_not_radial", grid=repr(g), max_dev=float(max(np.max(np.abs(img["data_x"][mask] - xs[mask])), np.max(np.abs(img["data_y"][mask] - ys[mask])))))
+        except Exception as e:
+            fail("vector_image_error", grid=repr(g), error=f"{type(e).__name__}: {e}")
     return {"ok": True, "cases": cases, "failures": fails}
 
 
